@@ -11,12 +11,13 @@ DRIVER_EXE = "awsmath"
 HARNESS = None   # built in regen (needs the generated header)
 TRUSTED = ["translator gen/cfun.py + gen/math_gen.py + gen/math_varargs.py (clang-14 JSON AST -> Lean; self-checked against the compiled C on every run)",
            "variadic arguments modelled as the list of arguments passed (va_arg = head of the list)",
-           "meaning given to __builtin_{add,mul}_overflow and __builtin_c[lt]z* in Model/CSem.lean",
+           "meaning given to __builtin_{add,mul}_overflow, __builtin_c[lt]z* and the IEEE-754 ordered comparisons on float/double bit patterns (CSem.fcmp) in Model/CSem.lean",
            "hand model Model/MathAsm.lean of the x86-64 inline assembly (tied by the correspondence run)",
            "signed shift/overflow UB given two's-complement meaning"]
 ASSUMPTIONS = ["x86-64 SysV: size_t = uint64_t; default build configuration resolves un-prefixed calls to the gcc_overflow/gcc_builtin variants"]
 RULE = ("every (variant, function) of math*.inl/clock.inl on the boundary operand product {0,1,2^k-1,2^k,2^k+1,MAX-1,MAX,MAX/b,MAX/b+1} "
-        "plus PRNG operands; source/math.c aws_add_size_checked_varargs with num in {0,1,2,3,5,8}, 0-2 surplus arguments, exact fit and "
+        "plus PRNG operands; float/double min/max on the special-value product (zeros, subnormals, 1 ulp neighbours, infinities, NaNs, both signs) plus structured PRNG bit patterns; "
+        "timestamp conversion with and without the optional remainder pointer; source/math.c aws_add_size_checked_varargs with num in {0,1,2,3,5,8}, 0-2 surplus arguments, exact fit and "
         "first overflow at every prefix position; non-trivial = every case (each is a distinct operand tuple); distinct by op text")
 
 _state = {}
@@ -110,6 +111,17 @@ def reference(name, args, info):
             return "ok 1"
         r = 1 << (a - 1).bit_length()
         return f"ok {r}" if r <= M else "err 5"
+    if info.get("float"):
+        # IEEE-754: result is one of the operands; for two non-NaN operands it is numerically the smaller / larger one
+        # (either zero may stand for the other); with a NaN operand the C expression `a < b ? a : b` yields b
+        import struct
+        fmt = ("<f", "<I") if info["float"] == "float" else ("<d", "<Q")
+        x = struct.unpack(fmt[0], struct.pack(fmt[1], a))[0]
+        y = struct.unpack(fmt[0], struct.pack(fmt[1], b))[0]
+        if x != x or y != y:
+            return ("oneof", [b])
+        want = min(x, y) if "min" in name else max(x, y)
+        return ("oneof", sorted({v for v, fv in ((a, x), (b, y)) if fv == want}))
     if name.startswith(("aws_min_", "aws_max_")):
         signed = ps[0][1][1]
         x, y = (sgn(a, w), sgn(b, w)) if signed else (a, b)
@@ -145,6 +157,10 @@ def gen_cases(rng, tier):
                 nf = rng.choice([rng.randint(1, 10 ** 9), rng.choice([1, 2, 3, 7, 1000, 999999937, 10 ** 9]), of, max(1, of // rng.randint(1, 9)) ])
                 t = rng.choice([rng.getrandbits(64), rng.getrandbits(rng.randint(1, 64)), rng.choice(tick_b)])
                 ops.append(f"m {v} {name} {t} {of} {nf}")
+            # the optional remainder pointer may be NULL: every operand triple again without it
+            ops += [o.replace(f" {name} ", f" {name}:null ") for o in ops]
+        elif info.get("float"):
+            ops = [f"m {v} {name} {a} {b}" for a, b in float_pairs(rng, tier, info["float"])]
         elif len(ps) == 1:
             bs = boundary(ps[0][1][0], True)
             ops = [f"m {v} {name} {a}" for a in bs] + [f"m {v} {name} {rng.getrandbits(ps[0][1][0])}" for _ in range(64)]
@@ -155,6 +171,11 @@ def gen_cases(rng, tier):
                 pairs = [(a, b) for a in rng.sample(bs, min(len(bs), per)) for b in rng.sample(bs, min(len(bs), per))]
             else:
                 pairs = [(a, b) for a in bs for b in bs]
+            # equal and adjacent operands around every boundary value (guards that are off by one, comparisons that
+            # drop the low bit or look at only part of the word)
+            M = (1 << w) - 1
+            for x in boundary(w, False):
+                pairs += [(x, x), (x, (x + 1) & M), ((x + 1) & M, x), (x, (x - 1) & M), ((x - 1) & M, x), (x, M - x), (x, (M - x + 1) & M)]
             pairs += [(rng.getrandbits(w), rng.getrandbits(w)) for _ in range(200)]
             pairs += [(rng.getrandbits(rng.randint(1, w)), rng.getrandbits(rng.randint(1, w))) for _ in range(200)]
             ops = [f"m {v} {name} {a} {b}" for a, b in pairs]
@@ -165,6 +186,42 @@ def gen_cases(rng, tier):
     for i in range(0, len(ops), 400):
         cases.append(Case(ops[i:i + 400], {"variant": "mc", "fn": "aws_add_size_checked_varargs"}))
     return cases
+
+
+def float_pairs(rng, tier, ty):
+    """bit-pattern operand pairs for the floating-point min/max: the special values of the format crossed with each
+    other, neighbours (1 ulp apart, across the sign, across the binade, beyond single precision for double,
+    fractions that truncate to the same integer), and PRNG patterns"""
+    e, m = (8, 23) if ty == "float" else (11, 52)
+    w = 1 + e + m
+    S = 1 << (w - 1)
+    bias = (1 << (e - 1)) - 1
+    inf = ((1 << e) - 1) << m
+    one = bias << m
+    spec = [0, 1, (1 << m) - 1, 1 << m, one - 1, one, one + 1, (bias - 1) << m, ((bias - 2) << m) | (1 << (m - 1)),
+            (bias + 1) << m, ((bias + 1) << m) | (1 << (m - 1)), (bias + 31) << m, (bias + 32) << m, (bias + 63) << m,
+            inf - 1, inf, inf + 1, inf | (1 << (m - 1)), inf | ((1 << m) - 1)]
+    spec = spec + [x | S for x in spec]
+    pairs = [(a, b) for a in spec for b in spec]
+    n = 300 if tier == "quick" else 6000
+    for _ in range(n):
+        a = rng.getrandbits(w)
+        k = rng.choice([0, 1, 2, 3])
+        if k == 0:
+            b = rng.getrandbits(w)
+        elif k == 1:
+            b = (a + rng.choice([1, -1, 2, 1 << rng.randrange(m)])) % (1 << w)      # neighbours, small relative difference
+        elif k == 2:
+            b = a ^ S if rng.random() < 0.5 else (a ^ (1 << rng.randrange(w)))     # sign flip / single bit flip
+        else:
+            # same integer part, different fraction (0 <= exponent < 20)
+            ex = rng.randrange(0, 20)
+            hi = ((bias + ex) << m) | (rng.getrandbits(ex) << (m - ex) if ex else 0) | (S if rng.random() < 0.5 else 0)
+            a = hi | rng.getrandbits(m - ex)
+            b = hi | rng.getrandbits(m - ex)
+        pairs.append((a, b))
+        pairs.append((b, a))
+    return pairs
 
 
 def addv_ops(rng, tier):
@@ -220,12 +277,23 @@ def oracle(case, lines):
                 if len(errs) > 3:
                     break
             continue
+        null_out = t[2].endswith(":null")
+        if null_out:
+            t[2] = t[2][:-5]
         m = entries.get((t[1], t[2]))
         if m is None:
             continue
         args = [int(x, 0) for x in t[3:]]
         exp = reference(t[2], args, m["info"])
+        if null_out and isinstance(exp, tuple) and exp[0] == "val":
+            exp = f"val {exp[1]}"
         if exp is None:
+            continue
+        if isinstance(exp, tuple) and exp[0] == "oneof":
+            if line not in ["P val %d" % v for v in exp[1]]:
+                errs.append(f"{op}: implementation says `{line}`, IEEE-754 mathematics says one of {['P val %d' % v for v in exp[1]]}")
+                if len(errs) > 3:
+                    break
             continue
         if isinstance(exp, tuple):
             exp = f"val {exp[1]} {exp[2]}"
@@ -254,11 +322,11 @@ MANIFEST = dict(
           "(the variadic checked sum: exact sum of the first num operands or overflow, 0 for num = 0) is "
           "re-translated from /repo's headers into Lean on every run (clang AST -> shallow embedding over Nat with explicit "
           "wrap-around) and the theorems of Props/C16.lean are re-proved about what the code says now: checked add/mul/sub exact "
-          "or overflow error, saturating forms, power-of-two test/rounding, clz/ctz, min/max, variant agreement, time-unit conversion "
+          "or overflow error, saturating forms, power-of-two test/rounding, clz/ctz, min/max (integer and float/double, the latter on IEEE-754 bit patterns), variant agreement, time-unit conversion "
           "= min(floor(t*nf/of), 2^64-1) with the documented remainder. The x86-64 assembly variant is hand-modelled and proved equal. "
           "The translation is validated each run by executing the generated Lean and all compiled C variants (incl. the assembly) on the "
           "boundary operand product, with a big-integer oracle."),
     note=("Trusted: Lean kernel; the translator (self-checked each run); meaning of compiler builtins (CSem.lean); asm hand model; "
-          "gcc/clang. Floating-point min/max are not translated."),
+          "gcc/clang. Floating-point min/max: translated with the IEEE-754 ordered comparison on bit patterns as a trusted primitive (CSem.fcmp)."),
     technique="translator-regenerated Lean model + kernel-checked theorems; differential self-check of the translation",
 )
